@@ -48,14 +48,15 @@ def gen(rng, tier):
 
 def _gen(rng, tier):
     dense = rng.random() < 0.4
-    nv = rng.randint(1, 3)
+    big = tier == 'thorough'
+    nv = rng.randint(1, 4 if big else 3)
     vars_ = common.VARS[:nv]
     pure_past = rng.random() < 0.25
     if dense:
         ops = (common.DENSE_PAST_OPS if pure_past else (common.DENSE_OFFLINE_OPS - set(sg.UNBOUNDED_FUTURE)))
     else:
         ops = (common.PAST_OPS if pure_past else common.NO_UNBOUNDED_FUTURE_OPS)
-    ast = sg.gen_formula(rng, sg.GenCfg(vars=vars_, ops=ops, max_depth=rng.randint(2, 4), max_bound=rng.choice([2, 4, 6]),
+    ast = sg.gen_formula(rng, sg.GenCfg(vars=vars_, ops=ops, max_depth=rng.randint(2, 5 if big else 4), max_bound=rng.choice([2, 4, 6] + ([10] if big else [])),
                                         p_reuse=rng.choice([0.0, 0.2]), allow_const_only=rng.random() < 0.1))
     used = sg.vars_of(ast)
     if not used:
@@ -67,7 +68,7 @@ def _gen(rng, tier):
         percuts = [dict((v, rng.randint(1, len(signals[v]))) for v in vars_) for _ in range(6)]
         return {'dense': True, 'vars': vars_, 'ast': ast, 'signals': signals, 'percuts': percuts,
                 'text': common.dense_text(ast, sg.Spelling(rng)), 'cls': rng.choice(['ct_off', 'ct_off', 'ct'])}
-    n = rng.randint(2, 14)
+    n = rng.randint(2, 24 if big else 14)
     data = world.gen_trace(rng, vars_, n)
     return {'dense': False, 'vars': vars_, 'ast': ast, 'n': n, 'data': data,
             'text': 'out = ' + sg.to_text(ast, sg.Spelling(rng)) + ';', 'cls': rng.choice(['dt_off', 'dt_off', 'dt'])}
